@@ -186,12 +186,12 @@ def r5(ctx, chk):
     ex = ctx.memo("vocab_extracted", lambda: Extracted(ctx))
     if regex.compile(ex.simpl_template % "x").groups != 0:
         raise AnalysisError(rule, "the simplification wrapper %r adds capturing groups" % ex.simpl_template)
-    rt = ctx.ix.func("dateparser.languages.locale:Locale._generate_relative_translations")
-    wr = [n_.value for n_ in iter_own_nodes(rt.node) if isinstance(n_, ast.Constant) and isinstance(n_.value, str) and "{}" in n_.value]
-    t_rt = " ".join(ast.unparse(rt.node).split())
-    if len(wr) != 1 or regex.compile(wr[0].format("x")).groups != 0 or "'|'.join(sorted(" not in t_rt \
-            or ".replace('(\\\\d+', '(?P<n>\\\\d+')" not in t_rt:
-        raise AnalysisError(rule, "_generate_relative_translations: the way the patterns of one key are joined changed: %s" % wr)
+    from .util import relative_pattern_model
+    m_ = relative_pattern_model(ctx)
+    if m_ is None or regex.compile(m_["template"].format("x")).groups != 0 or not m_["body"].startswith("'|'.join(sorted(") \
+            or not m_["body"].endswith(".replace('(\\\\d+', '(?P<n>\\\\d+')"):
+        raise AnalysisError(rule, "_generate_relative_translations: the way the patterns of one key are joined changed: %s" % (m_ and (m_["template"], m_["body"][:80]),))
+    wr = [m_["template"]]
     rel_wrapper = wr[0]
 
     def refs(template):
@@ -611,13 +611,15 @@ def r3(ctx, chk):
            key={"table": "DATE_ORDER", "construct": "values from date_order_chart"}, file="dateparser/conf.py",
            function="check_settings", line=None)
     chart = module_literal(ctx.repo, "dateparser/parser.py", "date_order_chart")
-    rdo = ix.func("dateparser.parser:resolve_date_order")
-    cl = dict_with_keys(rdo, ["DMY"])
-    clk = _dict_literal_keys(cl) if cl is not None else None
-    if clk is None:
-        raise AnalysisError(rule, "resolve_date_order.chart_list is not a dict literal")
-    chk.ob(rule, "DATE_ORDER: chart_list keys == date_order_chart keys", set(clk) == set(chart),
-           "an order accepted by validation is missing from chart_list -> KeyError: %s" % sorted(set(chart) ^ set(clk)),
+    from .util import date_order_results
+    from ..core.minieval import Unknown as _Unknown
+    try:
+        answers, rdo, _c = date_order_results(ctx)
+    except _Unknown as e_:
+        raise AnalysisError(rule, "resolve_date_order: the answer is computed by something this rule cannot evaluate (%s)" % e_)
+    missing = sorted(k for k, (l_, s_) in answers.items() if l_ is KeyError or s_ is KeyError)
+    chk.ob(rule, "DATE_ORDER: chart_list keys == date_order_chart keys", not missing,
+           "an order accepted by validation is missing from chart_list -> KeyError: %s" % missing,
            key={"table": "DATE_ORDER", "construct": "chart_list == date_order_chart"}, file=rdo.file,
            function=rdo.qual, line=rdo.node.lineno)
     chk.ob(rule, "DATE_ORDER default is a chart key", default_settings.get("DATE_ORDER") in chart, "",
